@@ -5,7 +5,7 @@ import typing
 from nvsa import cast
 from nvsa.report import AnalysisError
 
-from ._c14_common import (print_shape, rule_f16_special, rule_f16_pack_order, rule_shift_range, LITERAL_BITS, alpha_print, flat, is_int, is_min, name_width, res, return_type, then_returns, times8, type_bytes,
+from ._c14_common import (norm, print_shape, rule_f16_special, rule_f16_pack_order, rule_shift_range, LITERAL_BITS, alpha_print, flat, is_int, is_min, name_width, res, return_type, then_returns, times8, type_bytes,
                           upper_bound, zero_fill_guard_ok, early_exit_before)
 
 COPY = "nunavutCopyBits"
@@ -307,7 +307,7 @@ def rule_tail(fns) -> typing.List[dict]:
     rets = [(s, t) for s, t in v.terms() if t[0] == "un" and t[1] == "return"]
     ok, detail = False, "no return"
     for s, t in rets:
-        r = cast.substitute(t[2], v.env(s.index))
+        r = norm(cast.substitute(t[2], v.env(s.index)))     # (a < b) ? b - a : 0  is  b - min(b, a)
         ok, detail = _tail_shape(r, size, off, ln)
         if not ok:
             break
@@ -565,6 +565,7 @@ def analyse(ast: dict, text: str, point) -> typing.Tuple[typing.List[dict], typi
     out += rule_byte_order(fns, point[0])
     out += rule_family(fns)
     out += rule_errprop(fns)
+    out += rule_direct_read(fns)
     for n_, f_ in fns.items():
         out += rule_shift_range(f_, n_)
     prints = {}
@@ -576,3 +577,97 @@ def analyse(ast: dict, text: str, point) -> typing.Tuple[typing.List[dict], typi
     if "nunavutFloat16Pack" in fns:
         out += rule_f16_pack_order(fns["nunavutFloat16Pack"], "nunavutFloat16Pack")
     return out, prints, len(fns)
+
+
+# ---- direct reads of a caller's buffer ------------------------------------------------------------------------------------------
+def rule_direct_read(fns) -> typing.List[dict]:
+    """R-C14-GET (direct-index clause): outside the bit-copy primitive the readers reach the caller's buffer through nunavutGetBits /
+    nunavutCopyBits with a saturated length.  A reader that subscripts its `const uint8_t* buf` parameter itself must keep the index
+    below the size parameter on the way to the load: `if (i >= size) return ..;` before it, or a guard `i < size` around it.  `i > size`
+    lets i == size through - the first byte past the end is read instead of the implicit zero."""
+    from ._c14_common import _cmp_facts  # noqa: F401  (literal bounds are not enough here: variable against variable)
+    R = "R-C14-GET-SAT"
+    out: typing.List[dict] = []
+
+    def rel_facts(cond, pol):
+        c = cast.strip_casts(cond)
+        if c.get("kind") == "BinaryOperator" and c.get("opcode") in ("&&", "||"):
+            if (c["opcode"] == "&&") == pol:
+                return [f for x in c.get("inner", []) for f in rel_facts(x, pol)]
+            return []
+        if c.get("kind") == "UnaryOperator" and c.get("opcode") == "!":
+            return rel_facts(c["inner"][0], not pol)
+        if c.get("kind") == "BinaryOperator" and c.get("opcode") in ("<", "<=", ">", ">="):
+            a, b = (cast.ref_name(x) for x in c["inner"])
+            if a is None or b is None:
+                return []
+            op = c["opcode"]
+            if not pol:
+                op = {"<": ">=", "<=": ">", ">": "<=", ">=": "<"}[op]
+            if op in (">", ">="):
+                a, b, op = b, a, {">": "<", ">=": "<="}[op]
+            return [(a, op, b)]
+        return []
+
+    def always_returns(n):
+        k = n.get("kind")
+        if k == "ReturnStmt":
+            return True
+        if k == "CompoundStmt":
+            return any(always_returns(x) for x in n.get("inner") or [])
+        return False
+
+    for name, fn in fns.items():
+        if name == COPY:
+            continue
+        params = cast.param_types(fn)
+        bufs = [p for p, ty in params if re.search(r"const\s+(uint8_t|unsigned char)\s*\*", ty)]
+        sizes = [p for p, ty in params if "size" in (p or "") and "*" not in ty]
+        if not bufs or not sizes:
+            continue
+        body = cast.body_of(fn)
+        if body is None:
+            continue
+
+        def visit(n, guards, parent=None):
+            k = n.get("kind")
+            inner = n.get("inner") or []
+            if k == "CompoundStmt":
+                g = list(guards)
+                for st in inner:
+                    visit(st, g, n)
+                    if st.get("kind") == "IfStmt":
+                        parts = [x for x in st.get("inner") or []]
+                        if len(parts) == 2 and always_returns(parts[1]):
+                            g = g + [(parts[0], False)]      # `if (c) return ..;` - afterwards c is false
+                return
+            if k == "ConditionalOperator" and len(inner) == 3:
+                visit(inner[0], guards, n)
+                visit(inner[1], guards + [(inner[0], True)], n)
+                visit(inner[2], guards + [(inner[0], False)], n)
+                return
+            if k == "BinaryOperator" and n.get("opcode") in ("&&", "||") and len(inner) == 2:
+                visit(inner[0], guards, n)
+                visit(inner[1], guards + [(inner[0], n["opcode"] == "&&")], n)
+                return
+            if k == "IfStmt" and len(inner) >= 2:
+                visit(inner[0], guards, n)
+                visit(inner[1], guards + [(inner[0], True)], n)
+                for x in inner[2:]:
+                    visit(x, guards + [(inner[0], False)], n)
+                return
+            if k == "ArraySubscriptExpr" and len(inner) == 2 and cast.ref_name(inner[0]) in bufs \
+                    and not (parent is not None and parent.get("kind") == "UnaryOperator" and parent.get("opcode") == "&"):
+                idx = cast.ref_name(inner[1])
+                if idx is not None:
+                    facts = [f for g, pol in guards for f in rel_facts(g, pol)]
+                    ok = any(a == idx and op == "<" and b in sizes for a, op, b in facts)
+                    weak = [f for f in facts if f[0] == idx and f[2] in sizes]
+                    out.append(res(R, name, f"{name}: direct read `{cast.ref_name(inner[0])}[{idx}]` only where {idx} < {sizes[0]}", ok,
+                                   (f"the guards on the way establish only {weak[0][0]} {weak[0][1]} {weak[0][2]}" if weak else "no guard relates the index to the buffer size") +
+                                   ": the byte just past the end of the caller's buffer is read where the specification demands an implicit zero"))
+            for x in inner:
+                visit(x, guards, n)
+
+        visit(body, [])
+    return out
